@@ -145,7 +145,7 @@ def decode_sv(m, sv, strings):
         # membership is sampled on the values the query mentions
         members = []
         for s in sorted(strings):
-            if z3.is_true(m.eval(z3.Select(sv.arr, vl.vstr(s)), model_completion=True)):
+            if z3.is_true(m.eval(sv.mem(vl.vstr(s)), model_completion=True)):
                 members.append(s)
         return {'$set': members}
     if isinstance(sv, SObj):
@@ -264,28 +264,73 @@ def out(v):
         return {'$token': [base.ser(f) for f in v]}
     return base.ser(v)
 
-import importlib
+import importlib, copy
 mod = importlib.import_module(spec['module'])
-obj = mod
 args = [build(a) for a in spec['args']]
 parts = spec['qualname'].split('.')
+cfn = None
+if spec.get('contract_file'):
+    cmod = importlib.import_module('contracts.' + spec['contract_file'][:-3])
+    cfn = getattr(cmod, spec['contract_name'])
+from vlib.pyvc import dsl
+modifies = set(spec.get('modifies') or [])
+pnames = spec.get('params') or []
+snap = []
+for nm, a in zip(pnames, args):
+    try:
+        snap.append(a if (callable(a) or hasattr(a, '_role_re')) else copy.deepcopy(a))
+    except Exception:
+        snap.append(a)
+
+def universe(xs, acc):
+    for x in xs:
+        if isinstance(x, (str, int, float)) or x is None:
+            acc.add(x)
+        elif isinstance(x, (list, tuple, set)):
+            universe(x, acc)
+        elif hasattr(x, 'triples'):
+            universe(x.triples, acc); acc.add(x._top)
+    return acc
+
+report = {}
 try:
-    if len(parts) == 2:
-        fn = getattr(type(args[0]), parts[1]) if not isinstance(args[0], (str, int, tuple, list)) else getattr(getattr(mod, parts[0]), parts[1])
-        res = fn(*args)
+    if len(parts) >= 2 and parts[-1] == 'setter':
+        setattr(args[0], parts[1], args[1]); res = None
+    elif len(parts) == 2:
+        target = getattr(type(args[0]), parts[1]) if hasattr(type(args[0]), parts[1]) and not isinstance(args[0], (str, int, tuple, list, dict, set)) else getattr(getattr(mod, parts[0]), parts[1])
+        res = target.fget(args[0]) if isinstance(target, property) else target(*args)
     else:
         res = getattr(mod, parts[0])(*args)
-    print(json.dumps({'ok': True, 'result': out(res), 'args_after': [out(a) if not callable(a) and not hasattr(a, '_role_re') else None for a in args]}))
+    report = {'ok': True, 'result': out(res)}
 except Exception as e:
-    print(json.dumps({'ok': False, 'exc': type(e).__name__, 'msg': str(e)[:300],
-                      'lineno': getattr(e, 'lineno', None), 'offset': getattr(e, 'offset', None)}))
+    res = None
+    report = {'ok': False, 'exc': type(e).__name__, 'msg': str(e)[:300],
+              'lineno': getattr(e, 'lineno', None), 'offset': getattr(e, 'offset', None)}
+if cfn is not None and report.get('ok'):
+    # parameters denote their entry values unless the function may modify them in place
+    cargs, olds = [], {}
+    for nm, a, s0 in zip(pnames, args, snap):
+        if nm in modifies or hasattr(a, 'triples') or hasattr(a, 'node'):
+            cargs.append(a); olds[id(a)] = s0
+        else:
+            cargs.append(s0)
+    dsl._state['universe'] = universe(list(snap) + [res], set())
+    try:
+        report['clauses'] = [[k, l, v] for k, l, v in dsl.evaluate(cfn, cargs, res, olds)]
+    except Exception as e:
+        report['clauses_error'] = type(e).__name__ + ': ' + str(e)
+print(json.dumps(report, default=repr))
 '''
 
 
-def run_native(repo_root, module, qualname, args):
+def run_native(repo_root, module, qualname, args, contract=None):
     env = dict(os.environ, PYTHONPATH=repo_root + os.pathsep + VERIF, PYTHONDONTWRITEBYTECODE='1')
     script = NATIVE % {'verif': VERIF}
-    r = subprocess.run([PY_PENMAN, '-c', script], input=json.dumps({'module': module, 'qualname': qualname, 'args': args}),
+    payload = {'module': module, 'qualname': qualname, 'args': args}
+    if contract is not None:
+        payload.update({'contract_file': getattr(contract, 'file', None), 'contract_name': contract.name,
+                        'modifies': list(contract.modifies), 'params': [p for p, _ in contract.params]})
+    r = subprocess.run([PY_PENMAN, '-c', script], input=json.dumps(payload),
                        capture_output=True, text=True, env=env, timeout=60)
     if r.returncode != 0 or not r.stdout.strip():
         return {'ok': False, 'exc': 'ReplayCrash', 'msg': (r.stderr or '')[-500:]}
@@ -293,24 +338,140 @@ def run_native(repo_root, module, qualname, args):
 
 
 def violation_for(eng, key, ob, r, repo_root):
-    """build the violation record for a refuted obligation, replaying its counter-model"""
+    """violation record for a refuted obligation (model extraction and decoding run in a forked
+    child: z3 can crash the interpreter on some sequence / recursive-function models)"""
+    fallback = {'name': ob.name, 'kind': 'obligation', 'function': key,
+                'solver': {k: v for k, v in r.items() if k != 'raw'}, 'goal': ob.goal.sexpr()[:1500],
+                'detail': 'obligation %s of %s is refuted (sat by %s in %.2fs); the counter-model could not be '
+                          'extracted in-process' % (ob.name, key, r['by'], r['seconds']),
+                'suffix': 'no-failing-input-found'}
+    out = solve.forked(lambda: _violation_for(eng, key, ob, r, repo_root), timeout_s=120, default=None)
+    if not out or '__error__' in out:
+        if out:
+            fallback['detail'] += ' (%s)' % out['__error__'][:200]
+        return fallback
+    return out
+
+
+class PinnedModel:
+    """values of the constants obtained from a command-line solver's (get-value ...)"""
+
+    def __init__(self, pins, apps):
+        self.pins = pins      # [(const, value term)]
+        self.apps = apps      # {sexpr of a ground uninterpreted application: value term}
+
+    def eval(self, t, model_completion=True):
+        r = z3.substitute(t, *self.pins) if self.pins else t
+        k = r.sexpr()
+        if k in self.apps:
+            return self.apps[k]
+        try:
+            r2 = vl.simp(r)
+        except Exception:
+            r2 = r
+        if r2.sexpr() in self.apps:
+            return self.apps[r2.sexpr()]
+        if z3.is_bool(r2) and not (z3.is_true(r2) or z3.is_false(r2)):
+            return z3.BoolVal(False)
+        return r2
+
+    def decls(self):
+        return []
+
+    def __str__(self):
+        return '; '.join('%s = %s' % (c, v.sexpr()[:200]) for c, v in self.pins)
+
+
+def cli_model(ob, info, strings):
+    """ask /usr/bin/z3 then z3-new for the values of the entry constants (and of the role-table
+    predicates on every string the query mentions)"""
+    import tempfile, shutil
+    consts = solve.free_consts(list(ob.pc) + [ob.goal])
+    want = [c for c in consts if c.sort() in (vl.Val, vl.SeqVal, vl.String, vl.Int, vl.Bool)]
+    models = [c for c in consts if c.sort() == vl.ModelS]
+    apps = []
+    for mc in models:
+        apps.append(vl.m_noop(mc))
+        for st in sorted(strings):
+            for f in (vl.m_has, vl.m_norm_has):
+                apps.append(f(mc, z3.StringVal(st)))
+            apps.append(vl.m_norm(mc, z3.StringVal(st)))
+    text = solve.smt2_of(ob.pc, ob.goal)
+    items = [c.sexpr() for c in want] + [a.sexpr() for a in apps]
+    if not items:
+        return None
+    text = text.replace('(check-sat)', '(check-sat)\n(get-value (%s))' % ' '.join(items))
+    d = tempfile.mkdtemp(prefix='pyvc-')
+    try:
+        p = os.path.join(d, 'q.smt2')
+        open(p, 'w').write(text)
+        for cmd in (['/usr/bin/z3', '-smt2', '-T:20', p], ['z3-new', '-smt2', '-T:20', p]):
+            try:
+                r = subprocess.run(cmd, capture_output=True, text=True, timeout=30)
+            except Exception:
+                continue
+            out = r.stdout.strip()
+            if not out.startswith('sat'):
+                continue
+            body = out[3:].strip()
+            if not body.startswith('('):
+                continue
+            pairs = solve.sexpr_split(body[1:-1])
+            decls = {c.sexpr(): c for c in want}
+            for mc in models:
+                decls[mc.sexpr()] = mc
+            pins, appvals = [], {}
+            n_const = len(want)
+            for j, pr in enumerate(pairs):
+                parts = solve.sexpr_split(pr[1:-1])
+                if len(parts) != 2 or 'seq.nth_' in parts[1] or 'lambda' in parts[1]:
+                    continue
+                try:
+                    if j < n_const:
+                        c = want[j]
+                        a = z3.parse_smt2_string('(assert (= %s %s))' % (c.sexpr(), parts[1]),
+                                                 sorts={'Val': vl.Val}, decls={c.sexpr(): c})
+                        pins.append((c, a[0].arg(1)))
+                    else:
+                        app = apps[j - n_const]
+                        if parts[1] in ('true', 'false'):
+                            appvals[app.sexpr()] = z3.BoolVal(parts[1] == 'true')
+                        elif parts[1].startswith('"'):
+                            a = z3.parse_smt2_string('(declare-const __x String)(assert (= __x %s))' % parts[1])
+                            appvals[app.sexpr()] = a[0].arg(1)
+                except Exception:
+                    continue
+            if pins or appvals:
+                return PinnedModel(pins, appvals)
+        return None
+    finally:
+        shutil.rmtree(d, ignore_errors=True)
+
+
+def _violation_for(eng, key, ob, r, repo_root):
     base = {'name': ob.name, 'kind': 'obligation', 'function': key, 'solver': {k: v for k, v in r.items() if k != 'raw'},
             'goal': ob.goal.sexpr()[:1500]}
     detail = 'obligation %s of %s is refuted (sat by %s in %.2fs)' % (ob.name, key, r['by'], r['seconds'])
+    info = ob.info or {}
+    strings = string_literals(list(ob.pc) + [ob.goal])
     try:
-        m = solve.model_for(ob, 30000)
+        m = solve.model_for(ob, 15000)
     except Exception as e:
         m = None
     if m is None:
-        base.update({'detail': detail + '; no model could be extracted in-process', 'suffix': 'no-failing-input-found'})
+        try:
+            m = cli_model(ob, info, strings)
+        except Exception as e:
+            m = None
+    if m is None:
+        base.update({'detail': detail + '; no counter-model could be extracted', 'suffix': 'no-failing-input-found'})
         return base
     base['model'] = str(m)[:3000]
-    info = ob.info or {}
     if key.startswith('lemma:') or 'params' not in info:
-        base.update({'detail': detail, 'suffix': 'no-failing-input-found'})
+        base.update({'detail': detail + ' (a lemma over contracts: there is no single function call to replay)',
+                     'suffix': 'no-failing-input-found'})
         return base
     try:
-        strings = string_literals(list(ob.pc) + [ob.goal])
         for d in m.decls():
             try:
                 v = m[d]
@@ -323,8 +484,9 @@ def violation_for(eng, key, ob, r, repo_root):
         base.update({'detail': detail + '; counter-model not decodable (%s)' % e, 'suffix': 'no-failing-input-found'})
         return base
     module, qualname = key.split(':')
-    nat = run_native(repo_root, module, qualname, args)
-    base['replay'] = {'module': module, 'qualname': qualname, 'args': args, 'native': nat}
+    nat = run_native(repo_root, module, qualname, args, info.get('contract'))
+    base['replay'] = {'module': module, 'qualname': qualname, 'args': args, 'native': nat,
+                      'contract': [getattr(info.get('contract'), 'file', None), getattr(info.get('contract'), 'name', None)]}
     reproduced, why = judge(eng, key, info, m, nat, ob)
     base['replay']['judgement'] = why
     if reproduced:
@@ -336,7 +498,8 @@ def violation_for(eng, key, ob, r, repo_root):
 
 
 def judge(eng, key, info, m, nat, ob):
-    """does the real function, run on the decoded arguments, break its contract?"""
+    """does the real function, run on the decoded arguments, break its contract?  The contract is
+    evaluated natively (vlib/pyvc/dsl.py gives the sidecar vocabulary its Python meaning)."""
     c = info['contract']
     if not nat.get('ok'):
         exc = nat.get('exc')
@@ -346,41 +509,21 @@ def judge(eng, key, info, m, nat, ob):
         allowed = [(e, w) for e, w in c.raises if exc_matches(exc, e)]
         if not allowed:
             return True, 'raised %s (%s), which the contract does not allow' % (exc, nat.get('msg', '')[:100])
-        return False, 'raised %s, allowed by the contract' % exc
-    try:
-        res_term = encode_result(nat['result'], c)
-    except NotDecodable as e:
-        return False, 'actual result not encodable (%s)' % e
-    # evaluate every postcondition on (entry arguments under the model, actual result)
-    ex = Exec(eng, None, c, spec_mode=True)
-    ex.fname = key
-    ex.env = {p: sv for p, sv in info['params']}
-    ex.old_env = dict(ex.env)
-    ex.env['result'] = res_term
-    failed = []
-    for label, en in c.ensures:
-        if label == 'define':
-            continue
-        try:
-            t = as_bool(ex.ev(en))
-        except Unsupported as u:
-            continue
-        v = m.eval(t, model_completion=True)
-        if z3.is_false(v):
-            failed.append(label or ast_src(en))
-        elif not z3.is_true(v):
-            # not a value: decide with the solver under the model's interpretation
-            s = z3.Solver()
-            s.set('timeout', 10000)
-            for d in m.decls():
-                if d.arity() == 0:
-                    s.add(d() == m[d])
-            s.add(z3.Not(t))
-            if s.check() == z3.sat:
-                failed.append(label or ast_src(en))
+        return False, 'raised %s, allowed by the contract (its `when` clause is not re-evaluated natively)' % exc
+    clauses = nat.get('clauses')
+    if clauses is None:
+        return False, 'the contract could not be evaluated natively (%s)' % nat.get('clauses_error', 'no clauses')
+    if any(k == 'requires' and v is False for k, l, v in clauses):
+        return False, 'decoded arguments do not satisfy the precondition natively (the counter-model relies on values the decoder cannot represent)'
+    failed = [l or '#%d' % i for i, (k, l, v) in enumerate(clauses) if k == 'ensures' and v is False and l != 'define']
+    errs = [v for k, l, v in clauses if k == 'error']
     if failed:
         return True, 'actual result %s violates ensures %s' % (json.dumps(nat['result'])[:200], failed)
-    return False, 'actual result %s satisfies every postcondition (the counter-model is a state the real code does not reach from these arguments, e.g. inside a loop cut by its invariant)' % json.dumps(nat['result'])[:200]
+    if errs:
+        return False, 'contract evaluation stopped: %s' % errs[0][:200]
+    return False, ('actual result %s satisfies every postcondition natively (the counter-model is a state the real '
+                   'code does not reach from these arguments, e.g. inside a loop cut by its invariant)'
+                   % json.dumps(nat['result'])[:200])
 
 
 def ast_src(e):
